@@ -20,6 +20,8 @@ var Vocab = []string{"|", "(", ")", "[", "]", ",", ";", ".", "=", "==", "!=", "=
 	"\ufeff", "\ufffd", "\u2020", "\u0420", "\u010d", "三", "😊", "\u00a0", "\u2003", "\r", "\r\n", "\v", "\f",
 	"0x000000000000000ff", "0x10000000000000000", "`let`", "`$left`", "`count()`",
 	// string literals with an escape followed by a raw line break, and other multi-line oddities
+	// hexadecimal literals around and beyond 64 bits
+	"0x8000000000000000", "0xFFFFFFFFFFFFFFFFF", "0x1FFFFFFFFFFFFFFFF", "0x18000000000000000", "0xffffffffffffffff",
 	// numbers that stop inside their exponent
 	"1e+", "2.5E-", "0e-", "1.e+", ".5e",
 	// contextual keywords spelled as strings and quoted names
